@@ -29,6 +29,19 @@ Check (C09_create_nested : forall parse_obj member s v s' rp rc,
 
 Check (C09_create_is_create_with : forall s v, create_with s (fun s1 => Ok (s1, v)) = Ok (create s v)).
 
+Check (C09_create_with : forall parse_obj member s conv s' r,
+  conservative conv -> create_with s conv = Ok (s', r) ->
+  r = (lenN (refs s), 0) /\
+  (exists s2 p, conv (mkSt (refs s ++ [XPromised]) (changes s) (backend s) (start s) [] (cached s)) = Ok (s2, p) /\
+     (forall f g, resolve_ref parse_obj member f s' (fst r, g) = Ok p) /\
+     lenN (refs s) < lenN (refs s') /\ refs s' = refs s2) /\
+  ((forall i sid idx, i < lenN (refs s) -> nthN (refs s) i = Some (XStream sid idx) -> sid < lenN (refs s)) ->
+     forall f r0, fst r0 < lenN (refs s) -> resolve_ref parse_obj member f s' r0 = resolve_ref parse_obj member f s r0) /\
+  backend s' = backend s).
+
+Check (C09_conservative_closed : (forall conv (k : N * N -> prim), conservative conv -> conservative (fun s => do r <- create_with s conv; Ok (fst r, k (snd r)))) /\
+  (forall v, conservative (nested_conv v)) /\ (forall v, conservative (fun s => Ok (s, v)))).
+
 Check (C09_get_coherent : forall parse_obj member s r s' v,
   cache_ok parse_obj member s -> get parse_obj member s r = (s', v) ->
   v = resolve parse_obj member s r /\ cache_ok parse_obj member s' /\ refs s' = refs s /\ changes s' = changes s /\
